@@ -5,7 +5,8 @@
    The model (Model/C11.v) is tied to partitura's code by the correspondence run of
    harness/props/c11.py on every check (same definitions, evaluated by vm_compute). *)
 From PV Require Import Lib.Base Lib.Round Gen.C11_Tables Model.C11 Model.C11_Spec Model.C11_Norm
-  Proofs.C11_lib Proofs.C11_meas Proofs.C11_est Proofs.C11 Proofs.C11_norm Proofs.C11_tup Proofs.C11_slur.
+  Model.C11_Hist
+  Proofs.C11_lib Proofs.C11_meas Proofs.C11_est Proofs.C11 Proofs.C11_norm Proofs.C11_tup Proofs.C11_slur Proofs.C11_hist.
 From Coq Require Import QArith Qabs Sorting.Sorted.
 #[local] Open Scope Z_scope.
 
@@ -433,3 +434,66 @@ Theorem estimate_composite_within_eps : forall d div sds,
     /\ (Qabs (inject_Z d / inject_Z div - c) < eps_default)%Q /\ (Qabs (v - c) <= tiny)%Q.
 Proof. exact estimate_composite_lemma. Qed.
 Print Assumptions estimate_composite_within_eps.
+
+(* ------------------------------------------------------------------ state carried between calls *)
+(* Model/C11_Hist.v: the divisions table (Part.set_quarter_duration), the quarter attribute every time point
+   carries, and the symbolic duration a note that holds none reports (an estimate from its duration and
+   start.quarter).  Histories = any list of set_quarter_duration / a point is made / a point goes / a read. *)
+
+(* "that value takes effect until the time of the next quarter duration": after set_quarter_duration(t, q) the
+   table's value is q on [t, t_next) and what it was everywhere else (an entry that would repeat the value in
+   force is not recorded, an entry at t is replaced) *)
+Theorem set_quarter_takes_effect_until_next : forall s t q x,
+  table_ok (fst s) -> 0 <= t -> 0 <= x ->
+  div_at (fst (set_quarter s t q)) x
+  = if in_range t (next_time (fst (set_quarter s t q)) t) x then q else div_at (fst s) x.
+Proof. exact set_quarter_div_at. Qed.
+Print Assumptions set_quarter_takes_effect_until_next.
+
+Theorem set_quarter_keeps_table_sorted : forall s t q,
+  table_ok (fst s) -> 0 <= t -> table_ok (fst (set_quarter s t q)).
+Proof. exact set_quarter_table_ok. Qed.
+Print Assumptions set_quarter_keeps_table_sorted.
+
+(* through EVERY history the quarter attribute of every time point is the value the table holds at its time
+   (it is written when the point is made and rewritten by set_quarter_duration over exactly [t, t_next)) *)
+Theorem time_points_follow_divisions_table : forall h s,
+  table_ok (fst s) -> consistent s -> Forall event_ok h ->
+  table_ok (fst (run s h)) /\ consistent (run s h).
+Proof. exact run_ok. Qed.
+Print Assumptions time_points_follow_divisions_table.
+
+(* forall history: every read of a symbolic duration returns the estimate under the divisions the table holds
+   at the note's start AT THE MOMENT OF THE READ -- observation = f (current state) *)
+Theorem reads_return_current_state : forall h s,
+  table_ok (fst s) -> consistent s -> Forall event_ok h -> run_obs s h = spec_obs s h.
+Proof. exact run_obs_spec. Qed.
+Print Assumptions reads_return_current_state.
+
+(* reads leave no trace: the state after a history is the state after the history without its reads ... *)
+Theorem reads_leave_no_trace : forall h s, run s h = run s (filter (fun e => negb (is_read e)) h).
+Proof. exact run_without_reads. Qed.
+Print Assumptions reads_leave_no_trace.
+
+(* ... so a read answers the same whatever was read before it (the judgement of the harness's history stream:
+   the same view of a freshly built part taken through the same edits without the earlier reads) *)
+Theorem read_independent_of_earlier_reads : forall h s a b,
+  observe (run s h) a b = observe (run s (filter (fun e => negb (is_read e)) h)) a b.
+Proof. exact read_independent_of_reads. Qed.
+Print Assumptions read_independent_of_earlier_reads.
+
+(* not vacuous: a getter that keeps its estimate per (start, end) fails the statement on the history
+   look / correct the divisions at 0 / look again (a note of 5 divisions, 10 -> 4 per quarter: "eighth" twice,
+   where the code answers "eighth" and then "no single value") -- vm_compute on the witness *)
+Theorem memoised_getter_refuted :
+  table_ok (fst ex_state) /\ consistent ex_state /\ Forall event_ok ex_history
+  /\ run_obs ex_state ex_history = spec_obs ex_state ex_history
+  /\ run_obs_memo ex_state [] ex_history <> spec_obs ex_state ex_history.
+Proof. exact memo_refuted_lemma. Qed.
+Print Assumptions memoised_getter_refuted.
+
+Example set_quarter_example :
+  run ([(0, 12)], [(0, 12); (3, 12); (15, 12); (63, 12); (71, 12)]) [ESetQ 3 6; ESetQ 63 6; ESetQ 15 13; EAddPoint 70]
+  = ([(0, 12); (3, 6); (15, 13)], [(0, 12); (3, 6); (15, 13); (63, 13); (70, 13); (71, 13)]).
+Proof. exact ex_set_quarter. Qed.
+Print Assumptions set_quarter_example.
